@@ -393,6 +393,13 @@ struct url_aggregator : url_base {
   template <bool override_hostname = false>
   bool set_host_or_hostname(std::string_view input);
 
+  /**
+   * The port setter. The host setter, which checks the maximum length of its
+   * whole result, runs it with check_length = false.
+   */
+  template <bool check_length>
+  bool set_port_impl(std::string_view input);
+
   ada_really_inline bool parse_host(std::string_view input);
 
   inline void update_base_authority(std::string_view base_buffer,
